@@ -13,7 +13,7 @@ Arguments are bound to fresh locals first (evaluation order kept); helper locals
 import ast
 import copy
 
-from .model import FuncInfo, walk_no_nested
+from .model import FuncInfo, clone, walk_no_nested
 
 
 def _simple_body(g):
@@ -42,7 +42,7 @@ def _simple_body(g):
                     out.append(s_)
             return out
         import copy as _copy
-        body = fold(_copy.deepcopy(body))
+        body = fold(clone(body))
         if any(isinstance(x, ast.Return) for s_ in body for x in ast.walk(s_)):
             return None
     ret = None
@@ -83,7 +83,7 @@ class _Rename(ast.NodeTransformer):
 def inlined_view(ctx, fn, max_inlines=8):
     """FuncInfo whose node is a copy of fn.node with qualifying helper calls inlined (the same FuncInfo when nothing was inlined)."""
     prog = ctx.prog
-    node = copy.deepcopy(fn.node)
+    node = clone(fn.node)
     counter = [0]
 
     def callee_of(call):
@@ -129,7 +129,7 @@ def inlined_view(ctx, fn, max_inlines=8):
             if p in given:
                 val = given[p]
             elif p in g.defaults:
-                val = copy.deepcopy(g.defaults[p])
+                val = clone(g.defaults[p])
             else:
                 return None
             if isinstance(val, ast.Name) and p not in stored:
@@ -148,7 +148,7 @@ def inlined_view(ctx, fn, max_inlines=8):
             mapping.setdefault(nm, tag + nm)
         out = list(pre)
         for s in body:
-            s2 = _Rename(mapping).visit(copy.deepcopy(s))
+            s2 = _Rename(mapping).visit(clone(s))
             for x in ast.walk(s2):
                 ast.copy_location(x, at)
             out.append(s2)
@@ -160,7 +160,7 @@ def inlined_view(ctx, fn, max_inlines=8):
         order_base = getattr(at, 'col_offset', 0) + len(out)
         res = None
         if ret is not None and ret.value is not None:
-            res = _Rename(mapping).visit(copy.deepcopy(ret.value))
+            res = _Rename(mapping).visit(clone(ret.value))
             for x in ast.walk(res):
                 ast.copy_location(x, at)
                 if hasattr(x, 'col_offset'):
